@@ -22,8 +22,8 @@ CHECKS = {
    note="The denotation sat is axiomatised by constructor (the axioms are the specification, listed in trusted_base; consistent by well-founded recursion on finite trees). Assumed: PartialEq on Predicate/TyParam/Str is sound (true implies equal), erg_common Set::union/insert and the set! macro behave as sets; all atoms speak about the one refinement variable. invert on GeneralLessEqual/GeneralGreaterEqual (expression-level atoms outside the statement) is excluded by precondition.",
    technique=TECH_V + "; denotation axiomatised by constructor"),
  "C04": dict(engine="verus+kani", category="proof",
-   text="Every obligation generated from the current source of ValueObj::try_{add,sub,mul,floordiv,mod,pow,gt,ge,lt,le,eq,ne,or}, From<i32>/From<bool> for ValueObj, checked_floordiv_i32/checked_floormod_i32 and Context::eval_unary_val is discharged by Verus for all Int/Nat/Bool operands (no overflow, no division by zero, result equals the Python value or is None); Float classes, try_div and the float helpers' zero-divisor behaviour are discharged by loop-free full-domain Kani harnesses.",
-   note="Assumed: vstd's specs of checked_* integer ops and of Rust's truncating / and %; std contracts of i32/u64::checked_pow and checked_neg (wrappers); the value part of checked_truediv (IEEE quotient) and float_divmod (CPython transcription) - CBMC cannot decide full-domain f64 division/fmod; f64 powf/powi (try_pow Float classes not carried); Nat operands above 2**53 in int/int true division. The dispatch eval_const_expr -> eval_bin -> try_* is not under contract. Non-scalar arms (Str, List, Dict, Type) are R2-erased.",
+   text="Every obligation generated from the current source of ValueObj::try_{add,sub,mul,floordiv,mod,pow,gt,ge,lt,le,eq,ne,or}, From<i32>/From<bool> for ValueObj, checked_floordiv_i32/checked_floormod_i32, Context::eval_unary_val and the dispatchers Context::eval_bin / ValueObj::try_binary (each operator reaches the try_* function computing that operator) is discharged by Verus for all Int/Nat/Bool operands (no overflow, no division by zero, result equals the Python value or is None); Float classes, try_div and the float helpers' zero-divisor behaviour are discharged by loop-free full-domain Kani harnesses.",
+   note="Assumed: vstd's specs of checked_* integer ops and of Rust's truncating / and %; std contracts of i32/u64::checked_pow and checked_neg (wrappers); the value part of checked_truediv (IEEE quotient) and float_divmod (CPython transcription) - CBMC cannot decide full-domain f64 division/fmod; f64 powf/powi (try_pow Float classes not carried); Nat operands above 2**53 in int/int true division. eval_const_bin/eval_const_expr above eval_bin (token -> OpKind, operand evaluation) are not under contract. Non-scalar arms (Str, List, Dict, Type) are R2-erased.",
    technique=TECH_V + " (class-copied contracts) + Kani/CBMC loop-free harnesses; counterexamples replayed on the real crate"),
  "C06": dict(engine="kani", category="proof",
    text="PARTIAL: the fast subtyping judgement on the fieldless built-in types (Obj, Never, Int, Nat, Ratio, Float, Complex, Bool, Str, NoneType, Code, Frame, Error, Inf, NegInf, Type, ClassType, TraitType, Patch, NotImplementedType, Ellipsis, Failure). For all pairs Context::cheap_supertype_of answers with certainty and Context::supertype_of equals it; the relation is reflexive; transitive over all triples (Failure excluded: it is deliberately both top and bottom); Never is below and Obj above every type and nothing else is; Bool <: Nat <: Int <: Ratio <: Float <: Complex holds strictly and the numeric classes are unrelated to the other value classes. Kani loop-free over the finite domain (complete).",
